@@ -55,10 +55,15 @@ Lemma fixed_on_witnesses :
   (forall shm, err_of (run shm true 6 wit_destroy_walk world0) = None).
 Proof. repeat split; intros [|]; vm_compute; reflexivity. Qed.
 
-Lemma GI_world0 : GI (fun _ => 0) (fun _ => 0) (fun _ => false) world0.
+Definition Z0f : nat -> Z := fun _ => 0.
+Definition Ff : dctx := mkD (fun _ => false) false.
+
+Lemma GI_world0 : GI Z0f Z0f Ff world0.
 Proof.
-  unfold GI, world0; simpl. split; [|split]; auto.
-  intros c. unfold CI, conn0, jw; simpl. intuition (try lia; try discriminate).
+  unfold GI, world0; simpl. split; [|split; [|split]]; auto.
+  - intros c. unfold CI, conn0, jw, Z0f; simpl. intuition (try lia; try discriminate).
+  - unfold LI, Z0f; simpl. split; auto. intros; discriminate.
+  - unfold SI, nalloc; simpl. repeat split; intros; try discriminate; auto; lia.
 Qed.
 
 Lemma phase_step_ret_indep : forall k p, phase_step k 0 p <> None -> forall r, phase_step k r p <> None.
